@@ -477,6 +477,16 @@ impl Quantity {
             return QuantityOrdering::NanOperand;
         }
 
+        // A zero can carry any unit (the literal `0` is dimension-polymorphic, as in
+        // `0 < 1 s`), so compare it in the unit of the other operand.
+        if self.is_zero() {
+            let cmp = self
+                .value
+                .partial_cmp(&other.value)
+                .expect("unexpectedly got a None partial_cmp from non-NaN arguments");
+            return QuantityOrdering::Ok(cmp);
+        }
+
         let Ok(other_converted) = other.convert_to(self.unit()) else {
             return QuantityOrdering::IncompatibleUnits;
         };
